@@ -70,5 +70,24 @@ META["C16"] = dict(
     technique="Lean 4 proof over hand model + differential correspondence",
 )
 
+META["C02"] = dict(
+    text="Lean 4 invariant proofs over an executable model of reqrep::Topic::poll and sink::Router with scripted children: c02_requests_at_most_once_in_order (handed ++ buffered is a subsequence of taken; taken = handed + lost + buffered), c02_origin_tag (the cid header is the router's id whatever the requestor sent), c02_exactly_once_while_bound (no request is buffered while a replier is bound when the next one is taken), c02_replies_none_lost_each_to_its_requestor (routed ++ buffered = replies taken; every requestor's sink got exactly the replies routed to its id, in order), c02_reply_delivery, c02_bad_tag_discarded; for all histories, scripts, HashMap/StreamMap orders; tied to the code by replaying every scenario on the real Topic",
+    design_ref="DESIGN.md section 6, C02",
+    note="trusts the mpsc / StreamMap / HashMap / waker contracts as stated, the correspondence harness, the Lean kernel",
+    technique="Lean 4 invariant proofs over hand model + trace-level differential correspondence",
+)
+META["C10"] = dict(
+    text="Lean 4 theorems: requests go only to the replier bound at that moment, a replier registering while one is bound is queued for rejection and the bound one stays (c10_late_replier_is_rejected), for every history every rejected replier was handed exactly the replier-already-bound error or nothing (c10_rejected_told_exactly_that), the rejection path touches nothing of the bound replier or the requestors (c10_bound_replier_unaffected), the next replier binds once the slot is free (c10_rebind); racing late repliers with ready / pending / failing sinks replayed on the real router",
+    design_ref="DESIGN.md section 6, C10",
+    note="as C02",
+    technique="Lean 4 proof over hand model + differential correspondence",
+)
+META["C11"] = dict(
+    text="Lean 4 theorems that no frame sequence makes a router panic, spin or stop: poll of both routers returns for every state and input (c11_reqrep_total, c11_pubsub_total), frames of unexpected kinds from requestors are skipped and from repliers discarded without touching anybody (c11_unexpected_*), a request refused by the replier's sink (over the limit once tagged) is dropped and the replier stays bound; the real routers are fed such frames in a guarded child and compared with the model",
+    design_ref="DESIGN.md section 6, C11",
+    note="router half proved; registration half (handle_stream) modelled in Server/Registry.lean and exercised end to end when present",
+    technique="Lean 4 totality / termination proofs + guarded-child differential correspondence",
+)
+
 _PENDING = "not built yet in this session; planned at proof level (DESIGN.md section 6) — will be claimed as soon as its first theorem and correspondence suite exist"
 NOT_APPLICABLE = {f"C{n:02d}": _PENDING for n in range(1, 18)}
